@@ -17,3 +17,17 @@ def f17_mime_container(inp, kind):
         if main.count('/') == 1:
             return True
     return False
+
+
+def f24_tab_extra(inp, kind):
+    """C13/F24: the text holds a TAB-indented continuation line, the statement fails on its from_dict clause, and
+    it no longer fails once the tabs that indent continuation lines are replaced by a space - so the failure is the
+    recorded one and nothing else."""
+    if kind != 'property' or not isinstance(inp, str) or '\n\t' not in inp:
+        return False
+    from harness.props import C13
+    why = C13.p_fixpoint(inp)
+    if not why or not why.startswith('from_dict(to_dict())'):
+        return False
+    import re
+    return C13.p_fixpoint(re.sub(r'\n\t+', '\n ', inp)) is None
